@@ -56,6 +56,9 @@ func normMsg(s string) string {
 	// names of generated things
 	s = regexp.MustCompile(`gen\.[a-z]\.v[0-9](\.sub)?\.[A-Za-z0-9_.]+`).ReplaceAllString(s, "<name>")
 	s = regexp.MustCompile(`gen\.[a-z]\.v[0-9](\.sub)?`).ReplaceAllString(s, "<pkg>")
+	if i := strings.Index(s, "values of type google.protobuf.Duration are not supported"); i >= 0 {
+		return "values of type google.protobuf.Duration are not supported"
+	}
 	s = regexp.MustCompile(`field [A-Za-z0-9_.]+: `).ReplaceAllString(s, "field <path>: ")
 	s = regexp.MustCompile(`field [A-Za-z0-9_]+ is already set`).ReplaceAllString(s, "field <name> is already set")
 	s = reNum.ReplaceAllString(s, "N")
@@ -96,6 +99,8 @@ func splitCollision(files *protoregistry.Files) bool {
 	return hit
 }
 
+const sigOwnDup = "C18 reflected object / oneof has two properties with one name (JSON name of an exposed oneof equals the JSON name of a field)"
+
 var reConfusion = regexp.MustCompile(`interface conversion|refers to \*|fresh panic|fresh err, shared ok|fresh ok, shared|newPropSet: field|path-resolves`)
 
 type c18case struct {
@@ -131,6 +136,7 @@ func runC18(cfg *vh.Config) error {
 		}
 		prof.Comments = r.Chance(25)
 		prof.Collide = len(cases) == 1 || len(cases) == 2 || len(cases) == 12
+		prof.Clash = len(cases) == 4 || len(cases) == 14
 		c := descgen.Generate(r.Fork(fmt.Sprintf("case%d-%d", len(cases), invalid)), prof, deps)
 		if len(cases)%10 == 3 {
 			// a valid j5s package compiled by the real compiler (the C02 generator)
@@ -245,6 +251,10 @@ func runC18(cfg *vh.Config) error {
 				}
 				for _, v := range o.Viol {
 					clause, _, _ := strings.Cut(v, ":")
+					if clause == "names-unique" {
+						fail(sigOwnDup, "property names are unique within each object", v)
+						continue
+					}
 					fail("C18 SchemaSetFromFiles ok but "+clause+": "+normMsg(v), "on success every property's proto field path resolves to a field of the matching kind and names are unique", v)
 				}
 				set := "[]"
@@ -259,6 +269,10 @@ func runC18(cfg *vh.Config) error {
 				}
 				for _, v := range o.Viol {
 					clause, _, _ := strings.Cut(v, ":")
+					if clause == "names-unique" {
+						fail(sigOwnDup, "property names are unique within each object", v)
+						continue
+					}
 					fail("C18 SchemaCache.Schema ok but "+clause+": "+normMsg(v), "on success every property's proto field path resolves to a field of the matching kind and names are unique", v)
 				}
 				root := "None"
@@ -270,12 +284,16 @@ func runC18(cfg *vh.Config) error {
 				if bad {
 					fail(fmt.Sprintf("C18 ClientProperties of a reflected object -> %s in %s: %s", o.Class, o.Site, normMsg(o.Msg)), "never panics or recurses forever, including on self- and mutually-recursive messages", o.Msg)
 				}
+				ownDup := len(o.Sub) == 3 && o.Sub[2] == "own-dup"
 				for _, v := range o.Viol {
 					clause, _, _ := strings.Cut(v, ":")
+					if clause == "names-unique" && ownDup {
+						continue // reported for the object itself (msg / set steps)
+					}
 					fail("C18 client properties "+clause+": "+normMsg(v), "on success every property's proto field path resolves to a field of the matching kind and names are unique", v)
 				}
 				dup, unres := false, false
-				if len(o.Sub) == 2 {
+				if len(o.Sub) >= 2 {
 					dup, unres = o.Sub[0] == "dup", o.Sub[1] == "unresolved"
 				}
 				terms = append(terms, fmt.Sprintf("OClient %s %d %v %v", descgen.Str(arg), classN[o.Class], dup, unres))
